@@ -21,7 +21,8 @@ CLAIMED = {
     technique="deterministic simulation: PRNG seam with recording uniform draws (seeded, adversarial values), engine reuse history, virtual alarm inside sample()/estimate(); oracle = independent possible-world enumerator + Hoeffding bound",
     text="Inside problog.tasks.sample the PRNG is the simulator's: every uniform draw records the comparison made with it, so sequential annotated-disjunction sampling is checked "
          "draw by draw (threshold p_i/(1-rejected mass)), the printed probability must equal the product of the recorded outcomes, every accepted sample must be a positive-probability "
-         "world satisfying the evidence and every rejected attempt must violate it (all ground atoms of the cone are queried, so a sample fixes a world), an attempt replayed on a fresh "
+         "world satisfying the evidence and every rejected attempt must violate it (all ground atoms of the cone are queried, so a sample fixes a world; the printed probability "
+         "is judged with propagate_evidence=False only), programs with continuous facts must be internally consistent, an attempt replayed on a fresh "
          "engine from the captured PRNG state must be identical (engine reuse leaks nothing), frequencies and estimate() must lie within the Hoeffding radius (false alarm < 1e-9 per query) "
          "of the exact conditional probability, and samples yielded before a virtual-alarm interrupt must still be valid. Both propagate_evidence settings. Exploration level.",
     design_ref="DESIGN.md §5 C22", quick_t=1800, thorough_t=5400),
@@ -57,16 +58,18 @@ CLAIMED = {
     technique="deterministic simulation: documented unbuffered / rc-first / seeded random-order message queues (existing init_message_stack seam), differential oracle vs default engine, scripted replay",
     text="Each program is evaluated by the real pipeline with StackBasedEngine(unbuffered=True), (unbuffered=True, rc_first=True) and the RandomOrderEngine "
          "of docs/source/engine.rst whose random.randint is the simulator's seeded, recorded and replayable choice source; outcome (instances, probabilities, "
-         "accept/reject) must equal the default engine's. The unchanged tree violates this property in several distinct ways (known findings F3-F5, F15-F17, "
-         "identified by call site, engine side, feature tags or corpus file); everything outside those signatures - in particular any probability difference not "
-         "matching F17 - is reported. Exploration level.",
+         "accept/reject) must equal the default engine's. The unchanged tree violates this property in open-ended ways on programs with positive cycles "
+         "(known findings F3-F5, F15-F17 by call site / side / tags / corpus file, plus class-level entries F5-class and F17-class); those are bounded by aggregate "
+         "oracles over the whole run (share of cyclic programs on which a mode fails: limit 8 % for D/Drc, 32 % for R; share with a silent wrong answer: 1.5 %), while on "
+         "programs without a positive cycle every difference is reported. Exploration level.",
     design_ref="DESIGN.md §5 C04", quick_t=1500, thorough_t=5400),
  "C03": dict(
     technique="deterministic simulation: seeded scheduler permuting the engine's sibling message batches (reorder faults), differential oracle vs identity schedule, ddmin replay",
     text="The real buffered engine is run under a simulator-owned scheduler (guarded hook in MessageFIFO) that permutes every batch of sibling "
          "'e' messages according to a seeded policy (uniform, reverse, rotate, static per node, one-shot); the canonical outcome (query instances, "
          "probabilities, error class) must equal the identity-schedule outcome of the same program. Corpus test/*.pl plus seeded generated stratified programs; "
-         "violations are minimised (program and decision log) and replayed in a fresh process. Exploration: schedules are sampled, not enumerated.",
+         "violations are minimised (program and decision log) and replayed in a fresh process. Half of the programs with evidence are grounded with evidence propagation "
+         "(what the `problog` command does by default). Exploration: schedules are sampled, not enumerated.",
     design_ref="DESIGN.md §5 C03", quick_t=1500, thorough_t=5400),
  "C34": dict(
     technique="deterministic simulation: seeded operation histories vs reference models, invalid-op faults, ddmin replay",
